@@ -3,6 +3,7 @@ import BSModel.Proofs.Copy
 import BSModel.Proofs.CopyEq
 import BSModel.Proofs.CopyEdit
 import BSModel.Proofs.CopyCanon
+import BSModel.Proofs.CopyHash
 import BSModel.Gen.Copy
 /-! C12 — copies are equal, detached and independent; equality is structural; a copy hashes like its original.
 
@@ -72,6 +73,18 @@ theorem copy_soup_same_shape (fresh : TagData) (inh : Option Bool) (next i : Nat
   simp only [shape]
   rw [hpristine, hx, shapeL_copySpecL _ _ _ hs]
 
+/-- the hypotheses are satisfiable by a non-trivial tree (attributes of every kind in a plain dict, a list value, a
+    `NamespacedAttribute` key, children) -/
+private def exN : Node :=
+  .tag 1 { dP with attrs := dP.attrs ++ [(ofS "n", none, .int 2), (ofS "t", none, .bool true), (ofS "z", none, .none),
+      (ofS "xlink:href", some ⟨some (ofS "xlink"), some (ofS "href"), none⟩, .str 1 (ofS "u"))] }
+    [.str 9 0 (ofS "t"), .tag 10 dB []]
+example : SettledN exN ∧ DictOK exN ∧ SettledN exP ∧ DictOK exP :=
+  ⟨settledN_of_plain _ (by decide +kernel), dictOK_of_b _ (by decide +kernel),
+   settledN_of_plain _ (by decide +kernel), dictOK_of_b _ (by decide +kernel)⟩
+example : ∃ c n', copyImpl (some false) 20 exN = some (c, n') ∧ shape none c = shape (some false) exN :=
+  ⟨_, _, copy_refines _ _ _, shape_copySpec exN (some false) none 20 (settledN_of_plain _ (by decide +kernel))
+    (fun h => by cases h)⟩
 /-- the statement has content: a tree that differs in one string class has another shape -/
 example : shape none exP ≠ shape none (.tag 1 dP [.str 3 1 (ofS "t"), .tag 4 dB [], .str 5 5 (ofS "c")]) := by
   simp [shape, shapeL, exP]
@@ -98,6 +111,14 @@ theorem settled_of_str_list (cls : Nat) (l : Attrs) (h : ∀ e ∈ l, (∃ c s, 
   rcases h e he with ⟨c, s, hv⟩ | ⟨i, c, xs, hv⟩
   · rw [hv]; exact coerce_str ..
   · rw [hv]; exact coerce_list ..
+
+/-- a dict of a processing class is settled as well when it was filled through its own `__setitem__`: strings and lists -/
+example : Settled 1 dP.attrs := settled_of_str_list 1 _ (by
+  intro e he
+  simp only [dP, List.mem_cons, List.not_mem_nil, or_false] at he
+  rcases he with rfl | rfl
+  · exact Or.inr ⟨_, _, _, rfl⟩
+  · exact Or.inl ⟨_, _, rfl⟩)
 
 /-- … and what `d[key] = value` stored is stored unchanged when set again (`__setitem__` is idempotent) — except for the
     one value an `HTMLAttributeDict` produces itself and then refuses: `True` under a `NamespacedAttribute` key whose
@@ -394,19 +415,99 @@ theorem copy_eq_class (inh : Option Bool) (next : Nat) (t c u : Node) (n' : Nat)
   exact eq_depends_on_canon_only _ _ _ _ (dictOK_copySpec t inh next hs hd) hd hu hu (canon_copySpec t inh next hs) rfl
 
 /-- **A copy hashes like its original**: `hash(tag)` is `hash(tag.decode())`; for every renderer that reads the tree
-    through its shape (no object identities; `known_xml` only through `_is_xml`) and every string hash -/
-theorem copy_hash (render : Shape → PStr) (hsh : PStr → Nat) (inh : Option Bool) (next : Nat) (t c : Node) (n' : Nat)
+    through its shape (no object identities; `known_xml` only through `_is_xml`; attributes as a map) and every string hash -/
+theorem copy_hash (render : RShape → PStr) (hsh : PStr → Nat) (inh : Option Bool) (next : Nat) (t c : Node) (n' : Nat)
     (hs : SettledN t) (h : copyImpl inh next t = some (c, n')) : hashImpl render hsh none c = hashImpl render hsh inh t := by
   simp only [hashImpl, (copy_same_shape inh next t c n' hs h).1]
 
-/-- what does **not** hold (and the property does not claim): `==` looks at less than `decode` does, so equal tags may
-    hash differently — here `<a><!--x--></a> == <a>x</a>` (strings compare by text, whatever their class) -/
+/-- **`==` and `hash` agree on attribute order**: permuting the attribute dict changes neither (`==`:
+    `attr_order_irrelevant`) -/
+theorem hash_attr_order_irrelevant (render : RShape → PStr) (hsh : PStr → Nat) (inh : Option Bool) (i j : Nat) (d : TagData)
+    (attrs' : Attrs) (ks : List Node) (hd : (d.attrs.map Prod.fst).Nodup) (hp : d.attrs.Perm attrs') :
+    hashImpl render hsh inh (.tag i d ks) = hashImpl render hsh inh (.tag j { d with attrs := attrs' } ks) := by
+  have hl : ∀ k, (eraseAttrs d.attrs).lookup k = (eraseAttrs attrs').lookup k := by
+    intro k
+    rw [eraseAttrs_lookup, eraseAttrs_lookup, perm_lookup hp hd k]
+  simp only [hashImpl, shape, rshapeOf, shapeData, isXml]
+  have : (fun k => (eraseAttrs d.attrs).lookup k) = fun k => (eraseAttrs attrs').lookup k := funext hl
+  rw [this]
+
+/-- **When `==` implies equal hashes.** Two equal trees hash alike as soon as they also agree in what `==` does not look
+    at (`decor`: string classes, prefixes, namespaces, settings, kinds of keys, kinds and classes of values) — for every
+    renderer and string hash. In particular whenever one is a copy of the other, or they were parsed from the same
+    markup by equally configured builders. -/
+theorem eq_hash_consistent (render : RShape → PStr) (hsh : PStr → Nat) (inh inh' : Option Bool) (a b : Node)
+    (ha : DictOK a) (hb : DictOK b) (he : eqImpl a b = true) (hdec : decor inh a = decor inh' b) :
+    hashImpl render hsh inh a = hashImpl render hsh inh' b := by
+  have hc := (eq_iff_structural a b ha hb).mp he
+  simp only [hashImpl, rshape_of_canon_decor a b inh inh' hc hdec]
+
+/-- what does **not** hold (and the property does not claim): `==` looks at less than `decode` does, so equal tags whose
+    `decor` differs may hash differently — here `<a><!--x--></a> == <a>x</a>` (strings compare by text, whatever their
+    class) -/
 theorem hash_is_not_a_function_of_eq :
-    ∃ (a b : Node) (render : Shape → PStr) (hsh : PStr → Nat),
+    ∃ (a b : Node) (render : RShape → PStr) (hsh : PStr → Nat),
       eqImpl a b = true ∧ hashImpl render hsh none a ≠ hashImpl render hsh none b := by
   refine ⟨.tag 1 dB [.str 2 5 (ofS "x")], .tag 3 dB [.str 4 0 (ofS "x")],
-    (fun s => match s with | .tag _ [.str c _] => [c] | _ => []), (fun s => s.headD 0), by decide +kernel, ?_⟩
-  simp [hashImpl, shape, shapeL]
+    (fun s => match s with | .tag _ _ [.str c _] => [c] | _ => []), (fun s => s.headD 0), by decide +kernel, ?_⟩
+  simp [hashImpl, shape, shapeL, rshapeOf, rshapeOfL]
+
+/-- non-vacuity of `eq_hash_consistent`: two different objects (other identities, other attribute order) that are equal and
+    agree in `decor` -/
+example : ∃ a b : Node, DictOK a ∧ DictOK b ∧ eqImpl a b = true ∧ decor none a = decor none b ∧ ids a ≠ ids b :=
+  ⟨exP, .tag 31 { dP with attrs := dP.attrs.reverse |>.map fun e => match e with
+      | (k, m, .list _ c xs) => (k, m, .list 32 c xs) | e => e } [.str 33 0 (ofS "t"), .tag 34 dB [], .str 35 5 (ofS "c")],
+    dictOK_of_b _ (by decide +kernel),
+    dictOK_of_b _ (by decide +kernel),
+    by decide +kernel,
+    by
+      simp only [decor, decorL, exP, Decor.tag.injEq, List.cons.injEq, and_true, true_and]
+      refine ⟨by decide +kernel, ?_, by decide +kernel⟩
+      funext k
+      simp only [dP, List.reverse_cons, List.reverse_nil, List.nil_append, List.cons_append, List.map_cons, List.map_nil,
+        List.lookup_cons, List.lookup_nil]
+      by_cases h1 : k = ofS "class"
+      · subst h1; decide +kernel
+      · by_cases h2 : k = ofS "id"
+        · subst h2; decide +kernel
+        · have e1 : (k == ofS "class") = false := by simpa using h1
+          have e2 : (k == ofS "id") = false := by simpa using h2
+          simp [e1, e2],
+    by decide +kernel⟩
+
+/-! ### the `BeautifulSoup` object -/
+
+/-- **What a copy of a `BeautifulSoup` object keeps**: the builder (the very same object is reused), `original_encoding`,
+    and `is_xml` (it is the builder's); **what it does not**: `parse_only` and `element_classes` (the copy is not parsed
+    from anything), and — although `original_encoding` is carried over — `declared_html_encoding` and
+    `contains_replacement_characters`, which come from preparing the empty markup. Recorded behaviour of
+    `BeautifulSoup.copy_self`, compared with the real objects on every run. -/
+theorem soup_copy_info (s : SoupInfo) :
+    (soupCopySelf s).builder = s.builder ∧ (soupCopySelf s).builderIsXml = s.builderIsXml ∧
+    (soupCopySelf s).originalEncoding = s.originalEncoding ∧ (s.isXml = s.builderIsXml → (soupCopySelf s).isXml = s.isXml) ∧
+    (soupCopySelf s).parseOnly = none ∧ (soupCopySelf s).elementClasses = none ∧
+    (soupCopySelf s).declaredHtmlEncoding = none ∧ (soupCopySelf s).containsReplacementCharacters = false := by
+  refine ⟨rfl, rfl, rfl, fun h => h.symm, rfl, rfl, rfl, rfl⟩
+
+/-- copying a copy changes nothing more; a document parsed from a `str` without options is copied field by field -/
+theorem soup_copy_idempotent (s : SoupInfo) : soupCopySelf (soupCopySelf s) = soupCopySelf s := rfl
+
+theorem soup_copy_exact (s : SoupInfo) (h1 : s.isXml = s.builderIsXml) (h2 : s.parseOnly = none) (h3 : s.elementClasses = none)
+    (h4 : s.declaredHtmlEncoding = none) (h5 : s.containsReplacementCharacters = false) : soupCopySelf s = s := by
+  cases s
+  simp_all [soupCopySelf]
+
+/-- pickling keeps every document-level field (the whole `__dict__` travels), with new builder / strainer / mapping objects -/
+theorem soup_pickle_info (fresh : Nat) (s : SoupInfo) :
+    (soupPickle fresh s).isXml = s.isXml ∧ (soupPickle fresh s).originalEncoding = s.originalEncoding ∧
+    (soupPickle fresh s).declaredHtmlEncoding = s.declaredHtmlEncoding ∧
+    (soupPickle fresh s).containsReplacementCharacters = s.containsReplacementCharacters ∧
+    ((soupPickle fresh s).parseOnly.isSome = s.parseOnly.isSome) ∧ (soupPickle fresh s).builder = fresh := by
+  refine ⟨rfl, rfl, rfl, rfl, ?_, rfl⟩
+  cases h : s.parseOnly <;> simp [soupPickle, h]
+
+example : soupCopySelf ⟨5, false, false, some 7, some 8, some (ofS "latin-1"), some (ofS "latin-1"), true⟩ =
+    ⟨5, false, false, none, none, some (ofS "latin-1"), none, false⟩ := by decide +kernel
 
 /-! ### pickling a document -/
 
